@@ -17,7 +17,7 @@ func init() {
 			"(b) the OPB constraint-line parser accepts exactly the relations >= and = and hands them to GtEq and Eq respectively; " +
 			"(c) the hard/soft predicate that numbers relaxation literals in parseWCNFClause and the one that counts them in ParseWCNF are the same predicate.",
 		NotDecided: "that the parsed problem has the models (and costs) of the text: tokenisation, header handling, normalisation arithmetic; nothing is executed.",
-		Rules:      []ruleFn{ruleR13_1, ruleR13_2, ruleR13_6, ruleR13_7, ruleR2_3, ruleR2_4, ruleR2_5, ruleR2_6, ruleR2_7, ruleR13_8, ruleR13_9, ruleR4_4, ruleR18_9, ruleR13_10, ruleR13_11, ruleR4_7},
+		Rules:      []ruleFn{ruleR13_1, ruleR13_2, ruleR13_6, ruleR13_7, ruleR2_3, ruleR2_4, ruleR2_5, ruleR2_6, ruleR2_7, ruleR13_8, ruleR13_9, ruleR4_4, ruleR18_9, ruleR13_10, ruleR13_11, ruleR4_7, ruleR13_12, ruleR13_13, ruleR13_14},
 		Fixtures:   []func(*World) []string{fixtureE8, fixtureR13},
 	})
 }
